@@ -80,6 +80,8 @@ type c17obs struct {
 	clientErr     string
 	clientDone    bool
 	handlerCalls  int
+	finished      int
+	stuck         bool // the watchdog found that no thread can make progress (see the end of c17body)
 }
 
 type c17conn struct {
@@ -265,12 +267,14 @@ func c17body(cfg c17cfg, lists [][]int) func() {
 		var wg msync.WaitGroup
 		wg.Add(2)
 		mcrt.GoNamed("server", func() {
+			defer func() { o.finished++ }()
 			defer wg.Done()
 			o.serverTid = mcrt.CurrentID()
 			o.serveErr = s.ServeConn(sc)
 			o.serveReturned = true
 		})
 		mcrt.GoNamed("client", func() {
+			defer func() { o.finished++ }()
 			defer wg.Done()
 			for i, w := range o.writes {
 				if i == 1 && o.late {
@@ -297,6 +301,7 @@ func c17body(cfg c17cfg, lists [][]int) func() {
 		if cfg.keep {
 			wg.Add(1)
 			mcrt.GoNamed("keeper", func() {
+				defer func() { o.finished++ }()
 				defer wg.Done()
 				mcrt.WaitUntil("hijack-handler-returned", func() bool { return o.hjReturned })
 				// virtual time only advances when every thread is blocked: after this sleep the server side has
@@ -326,7 +331,15 @@ func c17body(cfg c17cfg, lists [][]int) func() {
 				pc.Close() // whatever Close above did, let the client see EOF
 			})
 		}
-		wg.Wait()
+		// A thread blocked for good is a deadlock. The scheduler's own deadlock report is avoided on purpose (at the time
+		// of writing it hangs when the last runnable thread is one that is just exiting): the main thread waits on the
+		// virtual clock, which only advances when every other thread is blocked or finished.
+		want := 2
+		if cfg.keep {
+			want = 3
+		}
+		mtime.Sleep(time.Hour)
+		o.stuck = o.finished != want
 	}
 }
 
@@ -370,6 +383,7 @@ func c17check(x *mcrt.Exec) (string, string, string) {
 		return "", "", ""
 	}
 	q := vrt.Q
+	dead := x.Out.Deadlock || o.stuck
 	bucket := "none"
 	switch {
 	case len(o.post) > 0 && o.bufferedAtHO >= len(o.post):
@@ -380,8 +394,8 @@ func c17check(x *mcrt.Exec) (string, string, string) {
 	cls := fmt.Sprintf("post=%d buffered-at-handoff=%s", len(o.post), bucket)
 	desc := fmt.Sprintf("rmu=%v noResponse=%v keep=%v variant=%d post=%s split=%d rest-held-back=%v", o.cfg.rmu, o.cfg.noResp, o.cfg.keep, o.cfg.variant, q(o.post), o.split, o.late)
 	if o.handoffIdx < 0 {
-		if x.Out.Deadlock && !o.serveReturned {
-			return cls, "", "" // generic deadlock report
+		if dead && !o.serveReturned {
+			return cls, "stuck-before-hijack", desc + ": no thread can make progress and ServeConn has not returned"
 		}
 		return cls, "hijack-handler-never-ran", desc + ": the handler called ctx.Hijack but the hijack handler was never started; ServeConn returned " + fmt.Sprint(o.serveErr)
 	}
@@ -451,11 +465,11 @@ func c17check(x *mcrt.Exec) (string, string, string) {
 		}
 		return cls, sig, fmt.Sprintf("%s: client sent %s after the request (%d of them were already taken off the wire by the server), hijack handler read %s err=%q", desc, q(o.post[:o.hjWant]), o.bufferedAtHO, q(o.hjRead), o.hjErr)
 	}
-	if x.Out.Deadlock {
+	if dead {
 		if o.hjReturned && !o.cfg.keep && closesByServer == 0 {
 			return cls, "conn-not-closed-after-hijack-handler", desc + ": the hijack handler returned, KeepHijackedConns is off, the connection was never closed (client still waiting for EOF)"
 		}
-		return cls, "", ""
+		return cls, "stuck-after-hijack", fmt.Sprintf("%s: no thread can make progress: hijack handler returned=%v, ServeConn returned=%v, client done=%v, keeper done=%v", desc, o.hjReturned, o.serveReturned, o.clientDone, o.keeperDone)
 	}
 	if !o.hjReturned {
 		return cls, "hijack-handler-did-not-finish", desc
